@@ -108,7 +108,7 @@ func (s C07) Events(env world.Env, mm mc.Model) []string {
 	for _, u := range c07Users {
 		evs = append(evs, "Buy:"+u+":1", "Buy:"+u+":2")
 	}
-	evs = append(evs, "BuyFor:U2:U1:2", "BuyFor:U1:U2:1") // one account pays for the other's plan
+	evs = append(evs, "BuyFor:U2:U1:2", "BuyFor:U1:U2:1")                                        // one account pays for the other's plan
 	evs = append(evs, "BuyX:U1:2500000000:30", "BuyX:U1:1900000000:90", "BuyX:U1:1500000001:60") // sizes that are not whole gigabytes, longer terms
 	if m.Posts < 4 {
 		for _, u := range c07Users {
